@@ -44,11 +44,14 @@ def rename_equal(t1, t2, m=None):
     if t1[0] in ("bvs", "bools"):
         if t1[0] == "bvs" and t1[2] != t2[2]:
             return False
-        if t1[1] in m:
-            return m[t1[1]] == t2[1]
-        if t2[1] in m.values():
+        # a claripy variable is its name together with its sort/width
+        k1 = (t1[1], t1[2] if t1[0] == "bvs" else None)
+        k2 = (t2[1], t2[2] if t2[0] == "bvs" else None)
+        if k1 in m:
+            return m[k1] == k2
+        if k2 in m.values():
             return False
-        m[t1[1]] = t2[1]
+        m[k1] = k2
         return True
     if t1[0] in ("bvv", "boolv"):
         return t1 == t2
@@ -157,6 +160,21 @@ def run(ctx):
                 viol("C08/canonicalize/not-a-renaming", "canonicalize(%s) = %s" % (E.sexpr(at), E.sexpr(ct)), {"tree": at})
             if len(can_lines) < ctx.pick(1500, 15000) and not any(x.annotations for x in a.leaf_asts()):
                 can_lines.append("canon " + E.sexpr(at)); can_want.append(E.sexpr(ct))
+            # multi-step: canonical forms are re-canonicalized together with fresh variables
+            if rng.random() < 0.3 and isinstance(c, claripy.ast.BV):
+                nm = rng.choice(["fresh", "canonical_1", "w"])
+                if any(l.op == "BVS" and l.args[0] == nm and l.length != c.length for l in c.leaf_asts()):
+                    nm = "fresh"    # the Lean model identifies variables by name; the same name at two widths is left to the oracle
+                fresh = claripy.BVS(nm, c.length, explicit_name=True)
+                c2 = rng.choice([fresh ^ c, c - fresh, fresh + c * 3])
+                c2t = E.from_ast(c2)
+                cc = c2.canonicalize()[2]
+                cct = E.from_ast(cc)
+                ctx.count()
+                if not rename_equal(c2t, cct):
+                    viol("C08/canonicalize/not-a-renaming", "canonicalize(%s) = %s" % (E.sexpr(c2t), E.sexpr(cct)), {"tree": c2t})
+                elif len(can_lines) < ctx.pick(1500, 15000):
+                    can_lines.append("canon " + E.sexpr(c2t)); can_want.append(E.sexpr(cct))
         except ClaripyZeroDivisionError:
             pass
         name2, tree2 = G.rule_directed(rng) if rng.random() < 0.5 else G.random_tree(rng)
